@@ -3,6 +3,8 @@ CONSTANTS
   MinV = 1
   MaxV = 4
   NLabels = 2
+  EditOps = {}
+  MaxRemove = 1
   Deviations = {"ScanLeavesIsolatedInPartZero"}
 INVARIANT JoinConsecutiveSamePartOnly
 INVARIANT JoinAllConsecutive
